@@ -33,6 +33,10 @@ pub fn build_pass_2(
     let eeprom_start_address = 0x0;
 
     for segment in pass1.segments {
+        // a segment without output (only an .org position) must not pad the image
+        if segment.items.is_empty() {
+            continue;
+        }
         // TODO: Rewrite to correct ordering of segment offsets and sizes
         match segment.t {
             SegmentType::Code => {
